@@ -12,6 +12,7 @@ EXPLANATION = (
     'largest over all derivations is a semantic consequence not decided here.'
     ' The admissible estimates (row maxima BT/BD, outside tables) and the call-local id-keyed containers are part of this check as well.'
     ' Third round: every accepted chart entry is expanded unconditionally (search:expansion-unconditional).'
+    ' Fourth round: the span rule of unary steps (chains included, whatever nbest is) and the admission rule of supertags.'
 )
 TRUSTED = ['clang-14 front end', 'CPython ast', 'sa/pyx.py normaliser', 'rule table DESIGN.md C10']
 
